@@ -120,6 +120,7 @@ def run(ctx, rep):
 
     quota_rule(P, rep, s, f, 5 if ctx.tier == 'quick' else 7)
     info_word_rule(P, rep, 'R-C15-6')
+    plan_limits_rule(P, rep, s, {'full': full[0], 'bad': badp[0], 'new': newp[0]} if (len(full) == 1 and len(badp) == 1 and len(newp) == 1) else None, 'R-C15-7')
 
 
 def quota_rule(P, rep, s, be, nmax=5, rid='R-C15-5'):
@@ -215,3 +216,53 @@ def info_word_rule(P, rep, rid):
                     okb = gotb == (t, 1, r, j)
                     rep.check(ok and okb, rid, 'time %d bad %d rehash %d justsynced %d' % (t, b, r, j), fn['info_make'].file,
                               'decoded %s; after info_set_bad %s' % (got, gotb), function='info_make', construct='info word round trip')
+
+
+def plan_limits_rule(P, rep, s, consts, rid):
+    """from the command line plan to the internal limits: state_scrub's prologue (up to the allocation of the time map) is
+    integer-only; it is interpreted with time() = NOW and parity_allocated_size() = BM for every kind of plan"""
+    rep.rule(rid, 'state_scrub prologue: percentage p gives a quota within [floor, ceil] of p% of the array (default 1/12), -o d gives the age limit now - d days (default 10), full/new/bad keep their plan constant', 60)
+    if consts is None:
+        raise AnalysisBroken('plan constants not identified')
+    NOW = 2000000000
+    DAY = 24 * 3600
+    lay = P.distructs.get('snapraid_plan')
+    poff = {m['name']: m['off'] for m in lay['members']}
+    def run(BM, plan, older):
+        def ext(ins, args):
+            if ins.callee == 'time':
+                return (NOW,)
+            if ins.callee == 'parity_allocated_size':
+                return (BM,)
+            if ins.callee in ('msg_progress', 'log_tag', 'log_fatal'):
+                return (0,)
+            return None
+        R = region.Region(P, extern=ext)
+        stp = region.P_(('obj', 'state'), 0)
+        R.zero_regions.add(stp.reg)
+        R.zero_regions.add(('glob', 'exit_failure'))
+        try:
+            R.run(s, 0, [stp, plan & 0xffffffff, older & 0xffffffff], stop=lambda ins: ins.callee not in ('time', 'parity_allocated_size', 'msg_progress', 'log_tag', 'log_fatal', 'md'))
+        except region.Stop as e:
+            return R, e.ins.callee
+        return R, None
+    for BM in (1, 7, 100, 1201):
+        for older in (-1, 0, 1, 10, 365):
+            for plan in (-1, 0, 1, 8, 33, 50, 99, 100):
+                R, stopped = run(BM, plan, older)
+                if stopped == 'exit':
+                    rep.fail(rid, 'plan %d older %d' % (plan, older), s.file, 'a numeric plan with -o %d is refused' % older, function='state_scrub', construct='plan limits')
+                    continue
+                cl = R.get_local(s, 'countlimit'); rl = R.get_local(s, 'recentlimit')
+                ps = R.local(s, 'ps'); pp = R.mem.get((ps.reg, poff['plan']))
+                num, den = (plan, 100) if plan >= 0 else (1, 12)
+                lo, hi = BM * num // den, -(-BM * num // den)
+                want_rl = NOW - (older if older >= 0 else 10) * DAY
+                ok = cl is not None and lo <= cl <= hi and region.signed(rl, 64) == want_rl and pp is not None and pp not in [c & 0xffffffff for c in consts.values()]
+                rep.check(ok, rid, 'array %d stripes, plan %d%%, -o %d' % (BM, plan, older), s.file, 'quota %s (allowed %d..%d), age limit now-%s s, internal plan %s' % (cl, lo, hi, NOW - region.signed(rl, 64) if rl is not None else '?', pp), function='state_scrub', construct='plan limits')
+    for name, c in sorted(consts.items()):
+        R, stopped = run(100, c, -1)
+        ps = R.local(s, 'ps'); pp = R.mem.get((ps.reg, poff['plan']))
+        rep.check(stopped != 'exit' and pp is not None and region.signed(pp, 32) == c, rid, 'plan %s keeps its constant' % name, s.file, 'internal plan %s for -p %s (%d)' % (pp, name, c), function='state_scrub', construct='plan constant %s' % name)
+        R2, stopped2 = run(100, c, 5)
+        rep.check(stopped2 == 'exit', rid, 'plan %s with -o is refused' % name, s.file, 'stopped at %s' % stopped2, function='state_scrub', construct='plan %s with -o' % name)
